@@ -60,6 +60,12 @@ def _closed(draw):
             "x": draw(st.sampled_from(XT)), "nt": draw(st.integers(5, 60)),
             # propagate inside `with eigenbasis_of(H)` (state created outside, result read outside)
             "ctx": draw(st.booleans()), "ham_units": draw(st.sampled_from([None, None, "1/cm", "eV", "THz"])),
+            # history of the objects before the propagation that is checked: the RWA Hamiltonian looked at while other
+            # units are current; a propagate(..., Nref=k) call that the propagator refused; the initial state-vector
+            # object overwritten after its propagation
+            "look_units": draw(st.sampled_from([None, None, "1/cm", "eV"])),
+            "refused_first": draw(st.sampled_from([False, False, True])),
+            "reuse_psi": draw(st.booleans()),
             # start of the time axis in units of the step
             "k0": draw(st.sampled_from([0, 0, 0, 3, -2, 10]))}
 
@@ -179,8 +185,18 @@ def _check_closed(case, ctx, rho0, coh):
                 ham = qr.Hamiltonian(data=H.copy())
             if rwa is not None:
                 ham.set_rwa([0, rwa])
+        if case.get("look_units"):
+            with qr.energy_units(case["look_units"]):
+                ham.data
+                if rwa is not None:
+                    ham.get_RWA_data()
         prop = ReducedDensityMatrixPropagator(ta, ham)
         rhoi = ReducedDensityMatrix(data=rho0.copy())
+        if case.get("refused_first"):
+            try:
+                prop.propagate(rhoi, method="no-such-method", Nref=5)
+            except Exception:
+                pass
         if inctx:
             with qr.eigenbasis_of(ham):
                 rt = prop.propagate(rhoi, method="short-exp-%d" % order, Nref=nref)
@@ -236,7 +252,14 @@ def _check_closed(case, ctx, rho0, coh):
                 ham2.set_rwa([0, rwa])
         sp = StateVectorPropagator(ta, ham2)
         sp.setDtRefinement(nref)
-        pe = sp.propagate(qr.StateVector(data=psi0.copy()), L=order)
+        psi_obj = qr.StateVector(data=psi0.copy())
+        pe = sp.propagate(psi_obj, L=order)
+        dme = None
+        if rwa is None:
+            if case.get("reuse_psi"):
+                # the caller re-uses its state-vector object for the next initial condition
+                psi_obj.data[:] = numpy.roll(psi0, 1)
+            dme = numpy.array(pe.get_DensityMatrixEvolution().data)
         if rwa is not None:
             pe.convert_from_RWA(ham2)
         pr = ReducedDensityMatrixPropagator(ta, ham2)
@@ -244,11 +267,15 @@ def _check_closed(case, ctx, rho0, coh):
                           Nref=nref)
         if rwa is not None:
             rt.convert_from_RWA(ham2)
-        return numpy.array(pe.data), numpy.array(rt.data)
+        return numpy.array(pe.data), numpy.array(rt.data), dme
     ok, r = guarded(ctx, "closed/statevector", run_sv, tag)
     if not ok:
         return
-    psi, rho = r
+    psi, rho, dme = r
+    if dme is not None:
+        # the density-matrix evolution made from a state-vector evolution is |psi(t)><psi(t)| at every stored time
+        ctx.close("closed/statevector-to-densitymatrix-evolution", dme, numpy.einsum("ki,kj->kij", psi, psi.conj()),
+                  rtol=1e-12, scale=1.0, where=tag + ("/psi-object-reused" if case.get("reuse_psi") else ""))
     Lpsi = -1j * Hprop
     _, tau_psi = orc.truncation_profile(Lpsi, dtr, order, psi0, nsteps)
     _, tau_rho = orc.truncation_profile(L, dtr, order, numpy.outer(psi0, psi0.conj()).reshape(-1), nsteps)
